@@ -121,6 +121,12 @@ def scan_points(geom, axis):
     return pts
 
 
+def _etol(v):
+    """Edge tolerance at coordinate v: the module's documented EPSILON margin (x 1.5), or two spacings of doubles where
+    coordinates are so large that EPSILON is below the resolution of the number format."""
+    return max(1.5 * EPSILON, 2.0 * math.ulp(v))
+
+
 class Lattice:
     """Sampling lattice of one geometry, derived from the coordinates the wrapped function was called on."""
 
@@ -135,7 +141,7 @@ class Lattice:
             lo, hi, res = geom[ax]
             cs = sorted({c[ax] for c in called})
             self.all.append(cs)
-            self.inn.append([c for c in cs if lo - 1.5 * EPSILON <= c <= hi + 1.5 * EPSILON])
+            self.inn.append([c for c in cs if lo - _etol(lo) <= c <= hi + _etol(hi)])
             self.hmax.append(max(b - a for a, b in zip(cs, cs[1:])) if len(cs) > 1 else float("inf"))
             self.index.append({c: i for i, c in enumerate(cs)})
         self.ncells = [max(len(n) - 1, 0) for n in self.inn]
@@ -156,7 +162,7 @@ class Lattice:
         return tuple(out)
 
     def is_node(self, p):
-        return all(p[ax] in self.index[ax] and self.geom[ax][0] - 1.5 * EPSILON <= p[ax] <= self.geom[ax][1] + 1.5 * EPSILON
+        return all(p[ax] in self.index[ax] and self.geom[ax][0] - _etol(self.geom[ax][0]) <= p[ax] <= self.geom[ax][1] + _etol(self.geom[ax][1])
                    for ax in range(self.d))
 
     def node_bit(self, c):
@@ -177,7 +183,7 @@ class Lattice:
         for ax in range(self.d):
             lo, hi, _ = self.geom[ax]
             x = p[ax]
-            if x < lo - 1.5 * EPSILON or x > hi + 1.5 * EPSILON:
+            if x < lo - _etol(lo) or x > hi + _etol(hi):
                 return "out"
             if x < lo or x > hi:
                 band = True
